@@ -1115,8 +1115,19 @@ def c13_writes(seed, tier):
         n = 400 if tier == "thorough" else 26
         for i in range(n):
             big = (i % 13 == 5)
+            shifted_big = (i % 13 == 9)
             compression = "none"
-            if big:
+            if shifted_big:
+                # a chunk of several MiB that the in-place update has to move towards the end by LESS than its own
+                # size (4 KiB inserted in front of the old content): source and destination of the move overlap
+                old_content = rng.randbytes((9 << 20) + rng.randrange(1, 5000))
+                src = rng.randbytes(4096) + old_content
+                cfg = (["--hash-chunking", "RollSum", "--avg-chunk-size", "2MiB", "--min-chunk-size", "2MiB",
+                        "--max-chunk-size", "8MiB", "--rolling-window-size", "64"], "R:20:2097152:8388608:64")
+                arch, apath, cfg_tok, hl = make_archive(W, rng, src, cfg=cfg)
+                R.stat("moves_of_a_large_chunk_onto_itself")
+                big = True
+            elif big:
                 # chunks larger than what one write system call of the runtime takes (2 MiB)
                 bs = rng.choice([3 << 20, (2 << 20) + 1, 5 << 20])
                 src = rng.randbytes(bs + rng.randrange(1, bs)) if i % 2 else bytes([0xAA]) * (bs * 2 + 17)
@@ -1135,7 +1146,7 @@ def c13_writes(seed, tier):
             starts = set(o for o, _ in chunks)
             ends = set(o + k for o, k in chunks)
             mode = ["new", "force-over-longer", "seeds", "in-place", "in-place+seeds", "in-place-rotated", "blockdev"][i % 7] if not big \
-                else rng.choice(["new", "in-place-rotated"])
+                else ("in-place-shifted" if shifted_big else rng.choice(["new", "in-place-rotated"]))
             prior = None
             seeds = []
             if mode == "force-over-longer":
@@ -1144,6 +1155,8 @@ def c13_writes(seed, tier):
                 prior = edit_source(rng, src) if rng.random() < 0.8 else src
                 if mode == "blockdev" and len(prior) < len(src):
                     prior += bytes(len(src) - len(prior) + rng.randrange(0, 40))
+            elif mode == "in-place-shifted":
+                prior = old_content
             elif mode == "in-place-rotated":
                 k = chunks[len(chunks) // 2][0] if len(chunks) > 1 else len(src) // 2
                 prior = src[k:] + src[:k]
